@@ -156,9 +156,16 @@ fn fit(case: &NbCase) -> Result<Result<Stats, String>, String> {
                 s.pred = catch(|| m.predict(&qm).map_err(|e| e.to_string())).and_then(|r| r);
             }
             Variant::Multinomial => {
-                let mut p = MultinomialNBParameters::default().with_alpha(case.alpha);
+                // builder calls in two orders (a setter that rebuilds from the defaults would lose earlier settings)
+                let mut p = MultinomialNBParameters::default();
+                if case.y.len() % 2 == 0 {
+                    p = p.with_alpha(case.alpha);
+                }
                 if let Some(pr) = &case.priors {
                     p = p.with_priors(pr.clone());
+                }
+                if case.y.len() % 2 != 0 {
+                    p = p.with_alpha(case.alpha);
                 }
                 let m = MultinomialNB::fit(&xm, &case.y, p).map_err(|e| format!("fit: {}", e))?;
                 s.classes = m.classes().clone();
@@ -169,11 +176,17 @@ fn fit(case: &NbCase) -> Result<Result<Stats, String>, String> {
                 s.pred = catch(|| m.predict(&qm).map_err(|e| e.to_string())).and_then(|r| r);
             }
             Variant::Bernoulli => {
-                let mut p = BernoulliNBParameters::default().with_alpha(case.alpha);
-                p.binarize = case.binarize;
+                let mut p = BernoulliNBParameters::default();
+                if case.y.len() % 2 == 0 {
+                    p = p.with_alpha(case.alpha);
+                }
                 if let Some(pr) = &case.priors {
                     p = p.with_priors(pr.clone());
                 }
+                if case.y.len() % 2 != 0 {
+                    p = p.with_alpha(case.alpha);
+                }
+                p.binarize = case.binarize;
                 let m = BernoulliNB::fit(&xm, &case.y, p).map_err(|e| format!("fit: {}", e))?;
                 s.classes = m.classes().clone();
                 s.class_count = m.class_count().clone();
